@@ -205,7 +205,7 @@ def recvCb (P : ProtoParams) (scratch : Bytes) (s : Io) (d : Bytes) : Io × List
   if d.length = 0 then (s, [])
   else if d.length ≤ P.stage - s.i.staging.length then
     devIterate P scratch { s with i := { s.i with staging := s.i.staging ++ d } }
-  else (s, [.log "RECVOVF"])
+  else ({ s with dead := true }, [.log "RECVOVF", .restart])      -- the stream has a hole: restart
 
 /-- one event; `scratch` is the content of `srpc->sdp` before the event (arbitrary: the
     OUT path and `srpc_async__call` share it) -/
